@@ -18,7 +18,7 @@ RULE = ('linkers over 1-4 submodels BUILT by fsic from C01-grammar programs (9 t
         'duplicates and an unknown id at each position; positive/negative/out-of-span t; min_iter 0..max_iter+2, max_iter 0..4 (and <0), '
         'tol in {1e-10, 0.5, 1, 0, 1e-300}, failures; exhaustive per-iteration move sequences (0, tol-1ulp, tol, tol+1ulp, 1.0 per check '
         'entry) up to the tier bound; non-finite values; raising hooks / submodels at every stage; offsets in and out of span; '
-        'multi-period solve(start=, end=) by label incl. defaults from the longest lag / lead, reversed and empty ranges, unknown labels, empty span; histories of 2-4 solve_t calls on one linker (other periods, other selections, other options; every call judged against the state the earlier calls left); copies of a linker (copy() / copy.copy / copy.deepcopy): solve the copy or the original, the other stays untouched and nothing is shared; single-model linker vs bare model twins (scripted, with own-hook scripts, and over parser-built models); string identifiers incl. \'_\' and `submodels=\'ab\'`; constructor over every ordered pair of list / tuple / range / ndarray / pandas Index / PeriodIndex / DatetimeIndex spans (equal, one position different, shorter, empty) and random mixed-kind families. '
+        'multi-period solve(start=, end=) by label incl. defaults from the longest lag / lead, reversed and empty ranges, unknown labels, empty span; histories of 2-4 solve_t calls on one linker (other periods, other selections, other options; every call judged against the state the earlier calls left); copies of a linker (copy() / copy.copy / copy.deepcopy): solve the copy or the original, the other stays untouched and nothing is shared; single-model linker vs bare model twins (scripted, with own-hook scripts, and over parser-built models); string identifiers incl. \'_\', integer and string identifiers mixed in one linker, unknown ids of either kind (an unknown string on an integer-keyed linker and vice versa), and `submodels=\'ab\'`; constructor over every ordered pair of list / tuple / range / ndarray / pandas Index / PeriodIndex / DatetimeIndex spans (equal, one position different, shorter, empty) and random mixed-kind families. '
         'Non-trivial = at least 2 iterations executed, or a stop exactly at k=min_iter or k=max_iter, or an exception path, or a '
         'constructor call over >= 2 submodels; distinct by hash of the whole case.')
 TRUSTED = ['scripted submodel / linker subclasses harness/scripted_linker.py (the same scripts are the Coq oracles of Linker/LinkerF.v); '
@@ -236,7 +236,9 @@ Open Scope float_scope. Open Scope Z_scope.
 '''
 
 
-STR_IDS = {'_': 4001, 'a': 3001, 'b': 3002, 'c': 3003, 'd': 3004}      # '_' = Linker.us_id: the key of the linker's own check values
+UNKNOWN_IDS = [7, 8, 99, 'zz', 'q', '1', '7']      # ids no generated linker holds: integers AND strings — an unknown STRING id on a linker
+                                                    # keyed by integers (or a mixture), and an unknown integer on a string-keyed one, must be KeyError too
+STR_IDS = {'_': 4001, 'a': 3001, 'b': 3002, 'c': 3003, 'd': 3004, 'zz': 3010, 'q': 3011, '1': 3012, '7': 3013}      # '_' = Linker.us_id: the key of the linker's own check values
 
 
 def _idn(x):
@@ -903,7 +905,7 @@ def bucket(case, obs):
     sel = case.get('sel')
     known = [s['id'] for s in case['subs']]
     b.append('all' if sel is None else 'unk' if any(i not in known for i in sel) else 'dup' if len(set(sel)) < len(sel)
-             else 'full' if sorted(sel) == sorted(known) else 'subset')
+             else 'full' if sorted(map(str, sel)) == sorted(map(str, known)) else 'subset')
     out = obs['out']
     if out[0] == 'raise':
         b.append(out[1] + ('*' if out[2] else ''))
@@ -1056,7 +1058,8 @@ def selection_cases(rng, max_subs):
                 continue
             if len(sel) <= 3:
                 for pos in range(len(sel) + 1):
-                    sels.append(sel[:pos] + [7] + sel[pos:])           # unknown id at each position
+                    sels.append(sel[:pos] + [7] + sel[pos:])           # unknown id at each position: an integer ...
+                    sels.append(sel[:pos] + [rng.choice(['zz', '1', 'q'])] + sel[pos:])        # ... and a string (the linker's ids are integers)
             if 1 <= len(sel) <= 2:
                 sels.append(sel + [sel[0]])                            # a duplicate
         for sel in sels:
@@ -1167,7 +1170,10 @@ def random_case(rng, kind='solve_t'):
     str_sel = False
     if kind != 'twin' and ns and rng.random() < 0.12:
         # string identifiers, among them '_' — the key get_check_values uses for the linker's own check values
-        names = rng.sample(['_', 'a', 'b', 'c', 'd'], ns) if rng.random() < 0.6 else rng.sample(['a', 'b', 'c', 'd'], ns)
+        pool = ['_', 'a', 'b', 'c', 'd'] if rng.random() < 0.6 else ['a', 'b', 'c', 'd']
+        if rng.random() < 0.45:
+            pool = pool + [0, 1, 2, 3, 12]            # integer and string identifiers in ONE linker
+        names = rng.sample(pool, ns)
         for s, nm in zip(subs, names):
             s['id'] = nm
         ids = list(names)
@@ -1178,7 +1184,7 @@ def random_case(rng, kind='solve_t'):
         if r < 0.55:
             sel = rng.sample(ids, rng.randint(0, len(ids)))
             if rng.random() < 0.12:
-                sel.insert(rng.randint(0, len(sel)), rng.choice([7, 8, 99]) if not isinstance(ids[0] if ids else 0, str) else 'd' if 'd' not in ids else 7)
+                sel.insert(rng.randint(0, len(sel)), rng.choice([u for u in UNKNOWN_IDS if u not in ids]))
             if sel and rng.random() < 0.06:
                 sel.append(rng.choice(sel))
     elif rng.random() < 0.5:
@@ -1222,7 +1228,8 @@ def random_case(rng, kind='solve_t'):
         core['status'][p] = rng.choice(['.', 'F', 'E', 'S'])
         core['iters'][p] = rng.randint(0, 9)
     c = mk_case(kind=kind, n=n, t=t, core=core, subs=subs, sel=sel, hooks=hooks, **opts)
-    if str_sel and sel and all(isinstance(x, str) and len(x) == 1 for x in sel):
+    if str_sel and sel and all(isinstance(x, str) and len(x) == 1 for x in sel) and all(isinstance(k, str) for k in ids):
+        # (only on all-string linkers: `1 in 'ab'` is a TypeError of Python's, the membership test of get_check_values)
         c['sel_str'] = True                     # passed as the string ''.join(sel): `submodels='ab'`
     if kind == 'twin' and subs and rng.random() < 0.2:
         # the model's OWN solve_t_before / solve_t_after write values: run by BaseModel.solve_t, never by a linker (premise of the twin clause)
@@ -1300,7 +1307,7 @@ def built_case(rng, kind):
     if rng.random() < 0.5:
         sel = rng.sample(ids, rng.randint(0, ns))               # a subset in some order, no duplicates (see recorded_passes)
         if rng.random() < 0.08:
-            sel.insert(rng.randint(0, len(sel)), 9)
+            sel.insert(rng.randint(0, len(sel)), rng.choice([9, 'zz', '1']))
     positions = [p] if kind == 'solve_t' else list(range(n))
     L = min(mx, 60)
     hooks = {}
@@ -1369,7 +1376,7 @@ def history_case(rng):
         r = rng.random()
         sel = None if r < 0.35 else rng.sample(ids, rng.randint(0, len(ids)))
         if sel is not None and rng.random() < 0.06:
-            sel.insert(rng.randint(0, len(sel)), 99)
+            sel.insert(rng.randint(0, len(sel)), rng.choice([99, 'zz', '1']))
         calls.append({'t': t, 'sel': sel, 'opts': o})
     c.update(kind='history', calls=calls, sel=calls[0]['sel'], opts=calls[0]['opts'], t=calls[0]['t'])
     return c
@@ -1474,7 +1481,7 @@ def fixed_cases():
     # feasible; every boundary from both ends, by positive and negative t; order of the checks: ValueError (min_iter > max_iter),
     # then IndexError (feasibility), then KeyError (unknown id) — nothing changed by the first two
     for t in (1, 2, 3, 4, 0, -4, -3, -2, -1, -5):
-        for sel in (None, [7], [1], [1, 7]):
+        for sel in (None, [7], ['7'], [1], [1, 7], [1, 'zz']):
             for mn, mx in ((0, 3), (3, 2)):
                 g = [mk_sub(0, 1, 5, [0], lags=2, leads=0, passes={str(t % 5): settle([1.0, 1.0])}),
                      mk_sub(1, 1, 5, [0], lags=0, leads=1, passes={str(t % 5): settle([2.0, 2.0])})]
